@@ -173,6 +173,70 @@ def sigint_job(j):
     return dict(viols=v, harness=False, call=("sigint", n), mode="sigint", rc=res.rc)
 
 
+def autosave_job(j):
+    """threaded sync with an autosave: the parity writer of one level is held just before its n-th write (a slow parity disk) while
+    the main thread runs on.  If a content file is saved meanwhile and the process dies then, the saved state must still be true
+    (C06 on the crash state); a tool that waits for its writers before saving simply does not save until the writer is released."""
+    import subprocess, time as _t
+    cfg, saved, at, lvl, n, seed = j
+    L = X.materialize(cfg, saved, seed)
+    fifo = L.p("log", "pause.fifo")
+    if os.path.exists(fifo):
+        os.unlink(fifo)
+    os.mkfifo(fifo)
+    tr = L.p("log", "trace")
+    if os.path.exists(tr):
+        os.unlink(tr)
+    argv = [L.exe] + L.base_opts("sync") + ["--test-io-cache", "8", "--test-force-autosave-at", str(at), "-l", L.p("log", "a.log"), "sync"]
+    env = L.env({"VP_PAUSEAT": "%s/p%d/*:pwrite:%d:%s" % (L.root, lvl, n, fifo)}, trace=True)
+    p = subprocess.Popen(argv, stdout=subprocess.PIPE, stderr=subprocess.PIPE, env=env, cwd=L.root, stdin=subprocess.DEVNULL)
+    where = "threaded sync, autosave at stripe %d, writer of level %d held before its write %d" % (at, lvl, n)
+    first = os.path.relpath(L.content_paths()[0], L.root) + ".tmp"
+    paused = saved_while_paused = False
+    t0 = _t.time()
+    while _t.time() - t0 < 2.5 and p.poll() is None:
+        try:
+            txt = open(tr, "rb").read().decode(errors="replace")
+        except FileNotFoundError:
+            txt = ""
+        lines = txt.split("\n")
+        pi = next((i for i, l in enumerate(lines) if "\tPAUSE\t" in l), None)
+        if pi is not None:
+            paused = True
+            # a content save completed AFTER the writer got stuck (the pre-sync save comes before any parity write)
+            if any("\trename\t" in l and first in l for l in lines[pi + 1:]):
+                saved_while_paused = True
+                break
+        _t.sleep(0.01)
+    v = []
+    if saved_while_paused:
+        p.kill()
+        p.wait()
+        for o in X.c06(L, where):
+            o["kind"] = "autosaved-state-" + o["kind"]
+            v.append(o)
+    else:
+        # release the writer and let the command finish
+        try:
+            fd = os.open(fifo, os.O_WRONLY | os.O_NONBLOCK)
+            os.write(fd, b"x")
+            os.close(fd)
+        except OSError:
+            pass
+        try:
+            p.communicate(timeout=60)
+        except subprocess.TimeoutExpired:
+            p.kill()
+            p.wait()
+            v.append(dict(kind="sync-hangs-after-writer-released", where=where))
+        if p.returncode not in (0, None) and not v:
+            v.append(dict(kind="sync-fails-after-writer-released", where=where, rc=p.returncode))
+        for o in X.c06(L, where):
+            o["kind"] = "after-release-" + o["kind"]
+            v.append(o)
+    return dict(viols=v, harness=False, call=("autosave", at, lvl, n), mode="autosave", paused=paused, saved_while_paused=saved_while_paused)
+
+
 def fix_job(j):
     cfg, saved, k, mode, ref, final_tree, seed = j
     L = X.materialize(cfg, saved, seed)
@@ -285,6 +349,32 @@ def run(ctx):
             ctx.cap("%s: deadline (%d of %d crash points)" % (label, done, len(jobs)))
         ctx.set("crash_points[%s]" % label, done)
 
+    # ---- autosave while parity writers lag behind (threaded I/O)
+    for cfg in ([Config(levels=2, ndisks=2)] + ([Config(levels=1, ndisks=2), Config(levels=3, ndisks=3)] if tier == "thorough" else [])):
+        if ctx.out_of_time():
+            ctx.cap("deadline before the autosave part " + cfg.short())
+            break
+        label = "autosave-threads/" + cfg.short()
+        abase = [("write", d, "anchor", 700, 0) for d in cfg.disknames] + [("cmd", "sync"), ("write", "d1", "N", 8000, 0)]
+        with labmod.Lab(cfg, seed=ctx.seed) as L0:
+            for op in abase:
+                X.apply_op(L0, op)
+            saved = L0.save()
+        ajobs = [("autosave", (cfg, saved, at, lvl, n, ctx.seed)) for at in range(2, 7) for lvl in range(cfg.levels) for n in range(0, at)]
+        npaused = nsaved = 0
+        for j, r in par.pmap(dispatch, ajobs, deadline=ctx.deadline):
+            evals += 1
+            npaused += bool(r["paused"])
+            nsaved += bool(r["saved_while_paused"])
+            ctx.nontrivial((label, r["call"]))
+            ctx.outcome(("autosave", r["paused"], r["saved_while_paused"], len(r["viols"])))
+            for v in r["viols"]:
+                ctx.violation("C07/autosave-threads/%s" % v["kind"], "%s: %s in %s" % (v["kind"], v["where"], label),
+                              dict(scenario="autosave-threads", cfg=cfg.describe(), base=abase, job="autosave", k=list(j[1][2:5]), violation=v))
+        ctx.set("autosave_cases[%s]" % label, len(ajobs))
+        ctx.set("autosave_writer_held[%s]" % label, npaused)
+        ctx.set("autosave_saved_while_writer_held[%s]" % label, nsaved)
+
     # ---- interrupted fix
     for cfg in ([Config(levels=1, ndisks=2), Config(levels=2, ndisks=2)] + ([Config(levels=3, ndisks=3)] if tier == "thorough" else [])):
         if ctx.out_of_time():
@@ -334,10 +424,26 @@ def dispatch(j):
         return kill_job(args)
     if kind == "sigint":
         return sigint_job(args)
+    if kind == "autosave":
+        return autosave_job(args)
     return fix_job(args)
 
 
+def replay_autosave(r):
+    cfg = Config.from_dict(r["cfg"])
+    with labmod.Lab(cfg) as L0:
+        for op in r["base"]:
+            X.apply_op(L0, tuple(op))
+        saved = L0.save()
+    out = autosave_job((cfg, saved, r["k"][0], r["k"][1], r["k"][2], 0))
+    for v in out["viols"]:
+        print("  ", v)
+    return not out["viols"]
+
+
 def replay(r):
+    if r.get("job") == "autosave":
+        return replay_autosave(r)
     cfg = Config.from_dict(r["cfg"])
     if r["scenario"] == "fix":
         with labmod.Lab(cfg) as L0:
